@@ -225,7 +225,7 @@ fn c17_k_hour_twelve_star() {
 // functions for: the start-of-spring instant of the civil year, the lunar date, the governing solar term and its
 // instant. Those four callees are replaced by stubs returning ARBITRARY values constrained only by their own contracts
 // (C06: terms are ordered; C02: the lunar year is the civil year or its neighbour), so the proof covers every such answer.
-use crate::tyme::solar::verif_k::mk_term;
+use crate::tyme::solar::verif_k::{mk_term, mk_day, mk_time};
 use crate::tyme::lunar::verif_k::{mk_lunar_day, mk_lunar_hour, mk_month_pub};
 use crate::tyme::jd::JulianDay;
 use std::cell::RefCell;
@@ -242,7 +242,7 @@ fn w_term_from_index(year: isize, index: isize) -> SolarTerm { unsafe { if index
 fn w_get_term_day(_d: &SolarDay) -> SolarTerm { let (y, i) = unsafe { W_TERM }; mk_term(y, i, 2.0) }
 fn w_get_term_time(_t: &SolarTime) -> SolarTerm { let (y, i) = unsafe { W_TERM }; mk_term(y, i, 2.0) }
 fn w_term_jd(t: &SolarTerm) -> JulianDay { JulianDay::from_julian_day(t.get_cursory_julian_day()) }
-fn w_jd_solar_day(j: &JulianDay) -> SolarDay { let v = unsafe { if j.get_day() == 1.0 { W_SPRING } else { W_TERMT } }; SolarDay::from_ymd(v.0, v.1, v.2) }
+fn w_jd_solar_day(j: &JulianDay) -> SolarDay { let v = unsafe { if j.get_day() == 1.0 { W_SPRING } else { W_TERMT } }; mk_day(v.0, v.1, v.2) }
 // JulianDay::get_solar_time carries a woven contract and cannot be stubbed; for the instant-based variant the term's
 // day number is a fixed code (noon of 9999-12-30 = start of spring, 9999-12-29 = governing term; the subject is kept
 // out of year 9999), the real get_solar_time turns the code into that date, and the two order tests interpret the codes
@@ -265,90 +265,105 @@ fn md(m: usize, d: usize, h: usize, mi: usize, s: usize) -> i64 { ((((m as i64) 
 
 /// sets the arbitrary answers; returns (civil year sy, date/time of the subject, tseq = position of the governing term
 /// counted from the winter solstice that opens civil year sy's term cycle, subject is at or after start of spring)
-fn w_world(with_clock: bool) -> (isize, (usize, usize, usize, usize, usize), i64, bool) {
+fn w_world(with_clock: bool, tlo: i64, thi: i64) -> (isize, (usize, usize, usize, usize, usize), i64, bool) {
   let sy: isize = kani::any(); kani::assume(sy >= 2 && sy <= 9998);
   let m: usize = kani::any(); let d: usize = kani::any(); kani::assume(m >= 1 && m <= 12 && d >= 1 && d <= 28);
   let (h, mi, s): (usize, usize, usize) = if with_clock { (kani::any(), kani::any(), kani::any()) } else { (0, 0, 0) };
   kani::assume(h < 24 && mi < 60 && s < 60);
   kani::assume(!(sy == 1582 && m == 10 && d >= 5 && d <= 14)); // the ten dates that do not exist
-  // start of spring: some instant of 2..6 February of sy
-  let sd: usize = kani::any(); let (sh, smi, ss): (usize, usize, usize) = if with_clock { (kani::any(), kani::any(), kani::any()) } else { (0, 0, 0) };
-  kani::assume(sd >= 2 && sd <= 6 && sh < 24 && smi < 60 && ss < 60);
-  // governing term: (ty, ti) with its instant; tseq = ti + 24 * (ty - sy) in 0..=24
-  let ty: isize = kani::any(); let ti: isize = kani::any(); kani::assume(ti >= 0 && ti < 24 && (ty == sy || (ty == sy + 1 && ti == 0)));
+  // start of spring: some instant of January or February of sy (late January in the late Julian centuries, 3..5 February today)
+  let sm: usize = kani::any(); let sd: usize = kani::any();
+  let (sh, smi, ss): (usize, usize, usize) = if with_clock { (kani::any(), kani::any(), kani::any()) } else { (0, 0, 0) };
+  kani::assume(sm >= 1 && sm <= 2 && sd >= 1 && sd <= 28 && sh < 24 && smi < 60 && ss < 60);
+  // governing term (ty, ti) with its instant; tseq = ti + 24 * (ty - sy) counts from the winter solstice that opens sy's term
+  // cycle: 0..=26 (a late-December subject can already lie in the minor or major cold of the next cycle)
+  let ty: isize = kani::any(); let ti: isize = kani::any(); kani::assume(ti >= 0 && ti < 24 && (ty == sy || (ty == sy + 1 && ti <= 2)));
   let tseq: i64 = ti as i64 + 24 * (ty - sy) as i64;
+  kani::assume(tseq >= tlo && tseq <= thi);   // this harness's share of the term positions 0..=26
   let tyear: isize = kani::any(); let tm: usize = kani::any(); let td: usize = kani::any();
   let (th, tmi, ts): (usize, usize, usize) = if with_clock { (kani::any(), kani::any(), kani::any()) } else { (0, 0, 0) };
   kani::assume(tm >= 1 && tm <= 12 && td >= 1 && td <= 28 && th < 24 && tmi < 60 && ts < 60);
-  // contract of the term callees (C06): the opening winter solstice lies in December of sy-1, every other term in sy;
-  // terms are strictly ordered, start of spring is term 3; the governing term has begun
-  kani::assume(if tseq == 0 { tyear == sy - 1 && tm == 12 } else { tyear == sy });
+  // the governing term's own instant lies in sy, or (terms 0..2 only) in December of sy - 1
+  kani::assume(tyear == sy || (tyear == sy - 1 && tm == 12 && tseq <= 2));
   kani::assume(!(tyear == 1582 && tm == 10 && td >= 5 && td <= 14));
-  let (subj, spring, term) = (md(m, d, h, mi, s), md(2, sd, sh, smi, ss), md(tm, td, th, tmi, ts));
-  kani::assume(if tseq == 0 { true } else if tseq < 3 { term < spring } else if tseq == 3 { term == spring } else { term > spring });
-  kani::assume(tseq == 0 || term <= subj);
-  // the governing term is the LAST one that has begun: before start of spring exactly when it is one of terms 0..2
+  let yk = |y: isize| (y as i64) * 40_000_000;
+  let (subj, spring, term) = (yk(sy) + md(m, d, h, mi, s), yk(sy) + md(sm, sd, sh, smi, ss), yk(tyear) + md(tm, td, th, tmi, ts));
+  // contract of the term callees (C06): terms are strictly ordered in time, start of spring is term 3 of sy, the governing
+  // term has begun and is the LAST one that has: the subject is before start of spring exactly when it is one of terms 0..2
+  kani::assume(if tseq < 3 { term < spring } else if tseq == 3 { term == spring } else { term > spring });
+  kani::assume(term <= subj);
   kani::assume((subj < spring) == (tseq < 3));
   let ly: isize = kani::any();
   // contract of the lunar callee (C02 + calendar fact): lunar year is sy or sy-1; sy+1 only late in the civil year
   kani::assume(ly == sy || ly == sy - 1 || (ly == sy + 1 && subj >= spring));
   let base: isize = kani::any(); let dp: isize = kani::any(); let hp: isize = kani::any();
   kani::assume(base >= 0 && base < 60 && dp >= 0 && dp < 60 && hp >= 0 && hp < 60);
-  unsafe { W_SPRING = (sy, 2, sd, sh, smi, ss); W_TERMT = (tyear, tm, td, th, tmi, ts); W_TERM = (ty, ti); W_LY = ly; W_BASE = base; W_DP = dp; W_HP = hp; }
+  unsafe { W_SPRING = (sy, sm, sd, sh, smi, ss); W_TERMT = (tyear, tm, td, th, tmi, ts); W_TERM = (ty, ti); W_LY = ly; W_BASE = base; W_DP = dp; W_HP = hp; }
   (sy, (m, d, h, mi, s), tseq, subj >= spring)
 }
 
-#[kani::proof]
-#[kani::unwind(61)]
-#[kani::stub(alloc::fmt::format, stub_format)]
-#[kani::stub(SolarTerm::from_index, w_term_from_index)]
-#[kani::stub(SolarDay::get_term, w_get_term_day)]
-#[kani::stub(SolarTerm::get_julian_day, w_term_jd)]
-#[kani::stub(JulianDay::get_solar_day, w_jd_solar_day)]
-#[kani::stub(SolarDay::get_lunar_day, w_lunar_day)]
-#[kani::stub(LunarMonth::from_ym, w_month_from_ym)]
-#[kani::stub(LunarMonth::get_sixty_cycle, w_month_pillar)]
-#[kani::stub(LunarDay::get_sixty_cycle, w_day_pillar)]
-#[kani::stub(SixtyCycle::from_index, faithful_cycle_from_index)]
-fn c08_k_from_solar_day() {
-  let (sy, (m, d, _, _, _), tseq, after) = w_world(false);
-  let r = SixtyCycleDay::from_solar_day(SolarDay::from_ymd(sy, m, d));
-  assert!(r.month.year.year == if after { sy } else { sy - 1 }, "the year pillar is that of the civil year from the start of spring on, of the previous year before it");
-  let k = spec::ediv(tseq - 3, 2);
-  assert!(r.month.month.get_index() as i64 == spec::emod(unsafe { W_BASE } as i64 + k, 60), "the month pillar is the first-month pillar of the civil year advanced by floor((term position - 3) / 2): it changes at each Jie and only there");
-  assert!(r.day.get_index() as isize == unsafe { W_DP } && r.solar_day == SolarDay::from_ymd(sy, m, d), "day pillar and date are carried unchanged");
-  assert!(unsafe { W_FROM_YM } == (sy, 1) && unsafe { W_SPRING_ARGS_OK }, "asks for start of spring (term 3) and the first lunar month of the civil year");
-  core::mem::forget(r);
-  kani::cover!(!after && tseq == 0, "from_solar_day reachable (January, before minor cold)");
-  kani::cover!(after && tseq == 24, "from_solar_day reachable (after the closing winter solstice)");
-}
+macro_rules! from_solar_day_harness { ($name:ident, $tlo:expr, $thi:expr, $c1:expr, $c2:expr) => {
+  #[kani::proof]
+  #[kani::unwind(61)]
+  #[kani::stub(alloc::fmt::format, stub_format)]
+  #[kani::stub(SolarTerm::from_index, w_term_from_index)]
+  #[kani::stub(SolarDay::get_term, w_get_term_day)]
+  #[kani::stub(SolarTerm::get_julian_day, w_term_jd)]
+  #[kani::stub(JulianDay::get_solar_day, w_jd_solar_day)]
+  #[kani::stub(SolarDay::get_lunar_day, w_lunar_day)]
+  #[kani::stub(LunarMonth::from_ym, w_month_from_ym)]
+  #[kani::stub(LunarMonth::get_sixty_cycle, w_month_pillar)]
+  #[kani::stub(LunarDay::get_sixty_cycle, w_day_pillar)]
+  #[kani::stub(SixtyCycle::from_index, faithful_cycle_from_index)]
+  fn $name() {
+    let (sy, (m, d, _, _, _), tseq, after) = w_world(false, $tlo, $thi);
+    let r = SixtyCycleDay::from_solar_day(mk_day(sy, m, d));
+    assert!(r.month.year.year == if after { sy } else { sy - 1 }, "the year pillar is that of the civil year from the start of spring on, of the previous year before it");
+    let k = spec::ediv(tseq - 3, 2);
+    assert!(r.month.month.get_index() as i64 == spec::emod(unsafe { W_BASE } as i64 + k, 60), "the month pillar is the first-month pillar of the civil year advanced by floor((term position - 3) / 2): it changes at each Jie and only there");
+    assert!(r.day.get_index() as isize == unsafe { W_DP } && r.solar_day == mk_day(sy, m, d), "day pillar and date are carried unchanged");
+    assert!(unsafe { W_FROM_YM } == (sy, 1) && unsafe { W_SPRING_ARGS_OK }, "asks for start of spring (term 3) and the first lunar month of the civil year");
+    core::mem::forget(r);
+    kani::cover!(tseq == $c1, "from_solar_day reachable (low end of this share)");
+    kani::cover!(tseq == $c2, "from_solar_day reachable (high end of this share)");
+  }
+} }
+// the term positions 0..=26 are split over three harnesses (solver time); together they cover every position
+from_solar_day_harness!(c08_k_from_solar_day_t00_02, 0, 2, 0, 2);
+from_solar_day_harness!(c08_k_from_solar_day_t03_13, 3, 13, 3, 13);
+from_solar_day_harness!(c08_k_from_solar_day_t14_26, 14, 26, 14, 25);
 
-#[kani::proof]
-#[kani::unwind(61)]
-#[kani::stub(alloc::fmt::format, stub_format)]
-#[kani::stub(SolarTerm::from_index, w_term_from_index)]
-#[kani::stub(SolarTime::get_term, w_get_term_time)]
-#[kani::stub(SolarTerm::get_julian_day, w_term_jd_code)]
-#[kani::stub(SolarTime::is_before, w_time_before)]
-#[kani::stub(SolarTime::is_after, w_time_after)]
-#[kani::stub(SolarTime::get_lunar_hour, w_lunar_hour)]
-#[kani::stub(LunarMonth::from_ym, w_month_from_ym)]
-#[kani::stub(LunarMonth::get_sixty_cycle, w_month_pillar)]
-#[kani::stub(LunarDay::get_sixty_cycle, w_day_pillar)]
-#[kani::stub(LunarHour::get_sixty_cycle, w_hour_pillar)]
-#[kani::stub(SixtyCycle::from_index, faithful_cycle_from_index)]
-fn c09_k_from_solar_time() {
-  let (sy, (m, d, h, mi, s), tseq, after) = w_world(true);
-  let t = SolarTime::from_ymd_hms(sy, m, d, h, mi, s);
-  let r = SixtyCycleHour::from_solar_time(t);
-  assert!(r.day.month.year.year == if after { sy } else { sy - 1 }, "year pillar switches at the start-of-spring instant");
-  let k = spec::ediv(tseq - 3, 2);
-  assert!(r.day.month.month.get_index() as i64 == spec::emod(unsafe { W_BASE } as i64 + k, 60), "month pillar switches at each Jie instant");
-  assert!(r.day.day.get_index() as i64 == spec::emod(unsafe { W_DP } as i64 + if h == 23 { 1 } else { 0 }, 60), "the day pillar is that of the lunar day, advanced by one from 23:00 (the Zi hour opens the next day)");
-  assert!(r.hour.get_index() as isize == unsafe { W_HP } && r.solar_time == t && r.day.solar_day == t.get_solar_day(), "hour pillar, instant and date are carried unchanged");
-  core::mem::forget(r);
-  kani::cover!(h == 23 && !after, "from_solar_time reachable");
-}
+macro_rules! from_solar_time_harness { ($name:ident, $tlo:expr, $thi:expr, $c1:expr) => {
+  #[kani::proof]
+  #[kani::unwind(61)]
+  #[kani::stub(alloc::fmt::format, stub_format)]
+  #[kani::stub(SolarTerm::from_index, w_term_from_index)]
+  #[kani::stub(SolarTime::get_term, w_get_term_time)]
+  #[kani::stub(SolarTerm::get_julian_day, w_term_jd_code)]
+  #[kani::stub(SolarTime::is_before, w_time_before)]
+  #[kani::stub(SolarTime::is_after, w_time_after)]
+  #[kani::stub(SolarTime::get_lunar_hour, w_lunar_hour)]
+  #[kani::stub(LunarMonth::from_ym, w_month_from_ym)]
+  #[kani::stub(LunarMonth::get_sixty_cycle, w_month_pillar)]
+  #[kani::stub(LunarDay::get_sixty_cycle, w_day_pillar)]
+  #[kani::stub(LunarHour::get_sixty_cycle, w_hour_pillar)]
+  #[kani::stub(SixtyCycle::from_index, faithful_cycle_from_index)]
+  fn $name() {
+    let (sy, (m, d, h, mi, s), tseq, after) = w_world(true, $tlo, $thi);
+    let t = mk_time(sy, m, d, h, mi, s);
+    let r = SixtyCycleHour::from_solar_time(t);
+    assert!(r.day.month.year.year == if after { sy } else { sy - 1 }, "year pillar switches at the start-of-spring instant");
+    let k = spec::ediv(tseq - 3, 2);
+    assert!(r.day.month.month.get_index() as i64 == spec::emod(unsafe { W_BASE } as i64 + k, 60), "month pillar switches at each Jie instant");
+    assert!(r.day.day.get_index() as i64 == spec::emod(unsafe { W_DP } as i64 + if h == 23 { 1 } else { 0 }, 60), "the day pillar is that of the lunar day, advanced by one from 23:00 (the Zi hour opens the next day)");
+    assert!(r.hour.get_index() as isize == unsafe { W_HP } && r.solar_time == t && r.day.solar_day == t.get_solar_day(), "hour pillar, instant and date are carried unchanged");
+    core::mem::forget(r);
+    kani::cover!(h == 23 && tseq == $c1, "from_solar_time reachable");
+  }
+} }
+from_solar_time_harness!(c09_k_from_solar_time_t00_02, 0, 2, 1);
+from_solar_time_harness!(c09_k_from_solar_time_t03_13, 3, 13, 3);
+from_solar_time_harness!(c09_k_from_solar_time_t14_26, 14, 26, 25);
 
 // closing lemma of C08 (pure arithmetic over the contracts above, no library code): the month stem is fixed by the stem
 // of the PILLAR year through the Five-Tigers rule, also in January / early February where the pillar year is the
@@ -357,7 +372,7 @@ fn c09_k_from_solar_time() {
 #[kani::stub(alloc::fmt::format, stub_format)]
 fn c08_k_pair_lemma() {
   let sy: i64 = kani::any(); let tseq: i64 = kani::any();
-  kani::assume(sy >= 2 && sy <= 9998 && tseq >= 0 && tseq <= 24);
+  kani::assume(sy >= 2 && sy <= 9998 && tseq >= 0 && tseq <= 26);
   let after = tseq >= 3;
   let pillar_year = if after { sy } else { sy - 1 };
   let k = spec::ediv(tseq - 3, 2);                                   // c08_k_from_solar_day
@@ -388,4 +403,51 @@ fn c15_k_into_loop_branch() {
   let l: LoopTyme = EarthBranch::from_index(i).into();
   assert!(l.get_index() as isize == i && l.get_size() == 12, "branch -> LoopTyme keeps the index; 12 branches");
   kani::cover!(i == 7, "into_loop_branch reachable");
+}
+
+// ---- C11: the sexagenary day / hour views step by stepping the civil day / instant they wrap and re-deriving the pillars:
+// next(n) hands exactly n to SolarDay::next / SolarTime::next (proved: c01_k5_next, verus c12_time_next) and builds the result
+// from exactly the value that comes back (from_solar_day / from_solar_time: c08_k_from_solar_day_*, c09_k_from_solar_time_*).
+static mut N_ARG: isize = -7921;
+static mut N_FROM: (isize, usize, usize, usize, usize, usize) = (-7922, 7923, 7924, 7925, 7926, 7927);
+static mut N_BUILT: (isize, usize, usize, usize, usize, usize) = (-7928, 7929, 7930, 7931, 7932, 7933);
+fn n_day_next(d: &SolarDay, n: isize) -> SolarDay { unsafe { N_ARG = n; N_FROM = (d.get_year(), d.get_month(), d.get_day(), 0, 0, 0); } mk_day(4321, 7, 9) }
+fn n_time_next(t: &SolarTime, n: isize) -> SolarTime { unsafe { N_ARG = n; N_FROM = (t.get_year(), t.get_month(), t.get_day(), t.get_hour(), t.get_minute(), t.get_second()); } mk_time(4321, 7, 9, 10, 11, 12) }
+fn n_from_solar_day(d: SolarDay) -> SixtyCycleDay {
+  unsafe { N_BUILT = (d.get_year(), d.get_month(), d.get_day(), 0, 0, 0); }
+  SixtyCycleDay { solar_day: d, month: SixtyCycleMonth { year: SixtyCycleYear { year: 1 }, month: cheap_cycle(0) }, day: cheap_cycle(0) }
+}
+fn n_from_solar_time(t: SolarTime) -> SixtyCycleHour {
+  let day = n_from_solar_day(t.get_solar_day());
+  unsafe { N_BUILT = (t.get_year(), t.get_month(), t.get_day(), t.get_hour(), t.get_minute(), t.get_second()); }
+  SixtyCycleHour { solar_time: t, day, hour: cheap_cycle(0) }
+}
+#[kani::proof]
+#[kani::unwind(61)]
+#[kani::stub(alloc::fmt::format, stub_format)]
+#[kani::stub(<SolarDay as Tyme>::next, n_day_next)]
+#[kani::stub(SixtyCycleDay::from_solar_day, n_from_solar_day)]
+fn c11_k_sixty_day_next() {
+  let (d, _, _) = any_sixty_cycle_day();
+  let n: isize = kani::any();
+  let r = d.next(n);
+  assert!(unsafe { N_ARG } == n && unsafe { N_FROM } == (2000, 1, 1, 0, 0, 0), "steps the wrapped civil day by exactly n");
+  assert!(unsafe { N_BUILT } == (4321, 7, 9, 0, 0, 0) && r.solar_day == mk_day(4321, 7, 9), "and is rebuilt from exactly the day that comes back");
+  core::mem::forget(r); core::mem::forget(d);
+  kani::cover!(n == -1, "sixty_day_next reachable");
+}
+#[kani::proof]
+#[kani::unwind(61)]
+#[kani::stub(alloc::fmt::format, stub_format)]
+#[kani::stub(<SolarTime as Tyme>::next, n_time_next)]
+#[kani::stub(SixtyCycleHour::from_solar_time, n_from_solar_time)]
+fn c11_k_sixty_hour_next() {
+  let (d, _, _) = any_sixty_cycle_day();
+  let h = SixtyCycleHour { solar_time: mk_time(2000, 1, 1, 5, 6, 7), day: d, hour: cheap_cycle(3) };
+  let n: isize = kani::any();
+  let r = h.next(n);
+  assert!(unsafe { N_ARG } == n && unsafe { N_FROM } == (2000, 1, 1, 5, 6, 7), "steps the wrapped instant by exactly n seconds");
+  assert!(unsafe { N_BUILT } == (4321, 7, 9, 10, 11, 12), "and is rebuilt from exactly the instant that comes back");
+  core::mem::forget(r); core::mem::forget(h);
+  kani::cover!(n == 7200, "sixty_hour_next reachable");
 }
